@@ -1,1 +1,11 @@
-From Saml Require Export Corr.CallbackCorr.
+(** correspondence for C10, metadata / certificate / readiness endpoints: (id, endpoint, cert_ok, sign_conf, mkey_ok,
+    signer_ok, health_ok, observed kind: 1 metadata unsigned, 2 metadata signed, 3 certificate, 4 ok, 5 error, 6 panic) *)
+From Saml Require Import Base.Bytes Idp.Metadata.
+Definition c10case := (Z * Z * bool * bool * bool * bool * bool * Z)%type.
+Definition kind_of (r : mreply) : Z := match r with MMetadata false => 1 | MMetadata true => 2 | MCert => 3 | MOk => 4 | MError => 5 end.
+Definition c10_ok (c : c10case) : bool :=
+  let '(_, ep, cert_ok, sign_conf, mkey_ok, signer_ok, health_ok, obs) := c in
+  Z.eqb obs (kind_of (if Z.eqb ep 1 then metadata_handler cert_ok sign_conf mkey_ok signer_ok
+                      else if Z.eqb ep 2 then certificate_handler cert_ok else ready_handler health_ok)).
+Definition c10_bad (cs : list c10case) : list Z :=
+  map (fun c => let '(i, _, _, _, _, _, _, _) := c in i) (filter (fun c => negb (c10_ok c)) cs).
